@@ -141,13 +141,24 @@ def analyse(code):
     return tifa_analysis()
 
 
-def judge_program(code, expr, envs, this_env, cellbase, line, viol, classes):
+def analyse_after(previous, code):
+    """The same report (and so the same Tifa instance) analysed another program first."""
+    from pedal.core.commands import contextualize_report
+    from pedal.core.report import MAIN_REPORT
+    from pedal.tifa.commands import tifa_analysis
+    MAIN_REPORT.full_clear()
+    contextualize_report(previous)
+    tifa_analysis()
+    return tifa_analysis(code)
+
+
+def judge_program(code, expr, envs, this_env, cellbase, line, viol, classes, previous=None):
     from pedal.types.new_types import Type
     outs = outcomes(expr, envs)
     n_te = sum(1 for o in outs if o[0] == 'raise' and isinstance(o[1], TypeError))
     this = outcomes(expr, [this_env])[0]
     try:
-        tifa = analyse(code)
+        tifa = analyse(code) if previous is None else analyse_after(previous, code)
     except Exception as e:
         viol.append(V(cellbase + '|tifa-raises', 'tifa_analysis raised %r on %r' % (e, code)))
         return 0
@@ -194,7 +205,12 @@ def judge_table(case):
     expr = 'a %s b' % op
     code = 'a = %s\nb = %s\nc = %s\nprint(c)\n' % (a_src, b_src, expr)
     viol, classes = [], ['table', 'op=' + op]
-    amb = judge_program(code, expr, envs, {'a': eval(a_src), 'b': eval(b_src)}, 'C19|op=%s|%s,%s' % (op, ta, tb), 3, viol, classes)
+    previous = None
+    if (case['ia'] + 2 * case['ib']) % 3 == 0:
+        # one cell in three is analysed on a report that has just analysed a same-shaped program with other operand types
+        previous = 'a = 1\nb = "x"\nc = a %s b\nprint(c)\n' % op
+        classes.append('same-report-history')
+    amb = judge_program(code, expr, envs, {'a': eval(a_src), 'b': eval(b_src)}, 'C19|op=%s|%s,%s' % (op, ta, tb), 3, viol, classes, previous)
     this = outcomes(expr, [{'a': eval(a_src), 'b': eval(b_src)}])[0]
     restype = type(this[1]).__name__ if this[0] == 'ok' else None
     nontrivial = ta != tb or (restype is not None and restype not in (ta, tb))
